@@ -49,10 +49,10 @@ func cat(us ...[]Unit) []Unit {
 func init() {
 	clusterCheck("C01",
 		func() []Unit {
-			return scUnits(1, "elect3", "elect2", "write3", "crash3", "majority-restart", "transfer", "member", "fig8")
+			return scUnits(1, "elect3", "elect2", "write3", "crash3", "majority-restart", "transfer", "member", "fig8", "revote3")
 		},
 		func() []Unit {
-			return cat(scUnits(2, "elect3", "elect2", "write3", "crash3", "majority-restart", "transfer", "member", "member-race", "fig8"), scUnits(1, "elect5"))
+			return cat(scUnits(2, "elect3", "elect2", "write3", "crash3", "majority-restart", "transfer", "member", "member-race", "fig8", "revote3"), scUnits(1, "elect5"))
 		})
 	clusterCheck("C02",
 		func() []Unit {
@@ -63,10 +63,10 @@ func init() {
 		})
 	clusterCheck("C03",
 		func() []Unit {
-			return scUnits(1, "write3", "crash3", "fig8", "majority-restart", "stale-suffix", "transfer", "member")
+			return scUnits(1, "write3", "crash3", "fig8", "fig8-batch1", "fig8-paper", "majority-restart", "stale-suffix", "transfer", "member")
 		},
 		func() []Unit {
-			return scUnits(2, "write3", "crash3", "fig8", "majority-restart", "stale-suffix", "transfer", "member", "member-race", "snap3")
+			return scUnits(2, "write3", "crash3", "fig8", "fig8-batch1", "fig8-paper", "majority-restart", "stale-suffix", "transfer", "member", "member-race", "snap3")
 		})
 	clusterCheck("C04",
 		func() []Unit {
@@ -77,10 +77,10 @@ func init() {
 		})
 	clusterCheck("C05",
 		func() []Unit {
-			return append([]Unit{{Name: "enum-commitment", Enum: enumC05}}, scUnits(1, "write3", "crash3", "member", "member-race", "fig8", "transfer")...)
+			return append([]Unit{{Name: "enum-commitment", Enum: enumC05}}, scUnits(1, "write3", "crash3", "member", "member-race", "fig8", "fig8-batch1", "transfer")...)
 		},
 		func() []Unit {
-			return append([]Unit{{Name: "enum-commitment", Enum: enumC05}}, scUnits(2, "write3", "crash3", "member", "member-race", "fig8", "transfer", "snap3")...)
+			return append([]Unit{{Name: "enum-commitment", Enum: enumC05}}, scUnits(2, "write3", "crash3", "member", "member-race", "fig8", "fig8-batch1", "transfer", "snap3")...)
 		})
 	clusterCheck("C07",
 		func() []Unit {
